@@ -156,8 +156,11 @@ def _jobs_c05(tier):
     for s in ["RPRS", "RPRFS", "FLEET"]:
         jobs.append(m1(s, "prio_get", (2 if s == "RPRFS" else 3) if q else 4, (2 if s == "RPRS" else 1) if q else 3, ("C05",), 14 if q else 60))
         jobs.append(m1(s, "prio_put", 3 if q else 4, 2 if q else 3, ("C05",), 12 if q else 60))
+        # waiting producers withdraw, a late request joins: the waiting line itself must stay in (priority, arrival) order
+        jobs.append(m1(s, "prio_put", 3 if q else 4, 1 if q else 2, ("C05",), 10 if q else 50, LATEPUT=True, name=f"M1/{s}/prio_put/withdraw-then-late-request"))
     # timed priority stores also with calls made at the very start of an instant (before that instant's own events)
     jobs.append(m1("SBELT_PRIO", "prio_put", 3, 2, ("C05",), 25 if q else 60, EARLY=True))
+    jobs.append(m1("SBELT_PRIO", "prio_put", 3, 0 if q else 1, ("C05",), 10 if q else 50, LATEPUT=True, name="M1/SBELT_PRIO/prio_put/withdraw-then-late-request"))
     jobs.append(m1("SBELT_PRIO", "prio_get", 3, 1 if q else 2, ("C05",), 14 if q else 60, EARLY=True))
     jobs.append(m1("RPRFS_TD", "prio_get", 3, 1 if q else 2, ("C05",), 14 if q else 60, EARLY=True))
     jobs.append(m1("FLEET", "prio_get", 2, 1 if q else 2, ("C05",), 14 if q else 60, EARLY=True, name="M1/FLEET/prio_get/early"))
